@@ -149,17 +149,34 @@ NestedAppend(q, hlog, qt) ==
       Go(i, qq) ==
         IF i > Len(hlog) THEN qq
         ELSE LET hits == SelectSeq(nest, LAMBDA x : x.at = <<hlog[i].b, hlog[i].h>>)
+                 see == hlog[i].see          \* what Is/Any answer inside that handler
+                 isErr == SHas(see, "Exception")
                  RECURSIVE Ins(_, _)
                  Ins(k, q2) ==
                    IF k > Len(hits) THEN q2
                    ELSE LET x == hits[k]
                             multi == \E j \in 1..Len(x.called) : sch[x.called[j]].multi
-                        IN IF Len(q2) >= QueueLimit THEN Ins(k + 1, q2)
+                            hasExc == SHas(x.called, "Exception")
+                            \* queue limit (machine.go:862-867, 1092-1097, 1138): one
+                            \* Exception is let in (Add when not in error, Remove when in error)
+                            full == Len(q2) >= QueueLimit /\
+                                    ~(x.type = "add" /\ hasExc /\ ~isErr) /\
+                                    ~(x.type = "remove" /\ hasExc /\ isErr)
+                            \* Remove of inactive states during a transition with an
+                            \* empty queue returns Executed without queueing (1099-1112)
+                            shortcut == x.type = "remove" /\ q2 = <<>>
+                                        /\ \A j \in 1..Len(x.called) : ~SHas(see, x.called[j])
+                        IN IF full \/ shortcut THEN Ins(k + 1, q2)
                            ELSE IF ~multi /\ IsDup(q2, x.type, x.called) THEN Ins(k + 1, q2)
                            ELSE Ins(k + 1, Append(q2, Mut(x.type, x.called, FALSE, FALSE,
                                                          qt + Pending(q2) + 1)))
              IN Go(i + 1, Ins(1, qq))
   IN Go(1, q)
+
+(* scripted handler mutations are one-shot: they fire the first time their     *)
+(* handler body runs in the call                                              *)
+NestLeft(hlog) ==
+  SelectSeq(nest, LAMBDA x : ~\E i \in 1..Len(hlog) : <<hlog[i].b, hlog[i].h>> = x.at)
 
 TxObs(mut, r, qt, vt) ==
   LET n == Len(r.hlog) IN
@@ -224,7 +241,8 @@ StepV(vt) ==
           /\ obs' = o
           /\ verdict' = TxVerdict(IF obs.kind = "tx" THEN obs ELSE prev, o)
           /\ pan' = pan \ r.fired /\ stall' = stall \ r.fired
-          /\ UNCHANGED <<cfgVars, running, veto, nest, atCall, ncalls>>
+          /\ nest' = NestLeft(o.hlog)
+          /\ UNCHANGED <<cfgVars, running, veto, atCall, ncalls>>
 
 RetObs ==
   [kind |-> "ret",
